@@ -80,15 +80,34 @@ Theorem window_counts_completed_incoming :
 Proof. exact claim_htlt_win. Qed.
 Print Assumptions window_counts_completed_incoming.
 
-(** ** the hypothesis "the recipient is not the escrow account" is needed: a contract paid out to
-    the module account itself (accepted by the code: the htlc account is not a blocked address in
-    the application's configuration) is a donation to escrow, after which escrow exceeds the open
-    contracts.  [escrow_eq_open] is therefore stated for histories without such contracts. *)
-Example escrow_eq_open_needs_recipient_not_escrow :
-  let ops := [Create (mkCreate 0 ESC [(4, 100)] (7, ts0) ts0 50 false); Claim 1 ((7, ts0), 0, ESC, [(4, 100)]) 7] in
-  let s := reachable exP exB (ts0 * ns) ops in
-  bal (st_bank s) ESC 4 = 100 /\ wsum (w_esc 4) (st_contracts s) = 0.
-Proof. vm_compute. split; reflexivity. Qed.
+(** ** the pinned code violated [escrow_eq_open]: it accepted a contract whose recipient is the htlc
+    module account itself (an ordinary message: that account is not a blocked address); once claimed
+    its coins stay in - or, for an incoming transfer, are minted into - escrow for ever, so escrow
+    exceeded the open contracts (found by the check: corpus/C04/07-recipient-is-the-htlc-module-account.jsonl).
+    Fixed in the repository ("fix: htlc CreateHTLC rejects a recipient equal to the htlc module account");
+    the model follows the fixed code, and the theorems above carry no hypothesis on recipients.
+    The refuted statement, for the record, on the pinned behaviour ([create_pinned] in Htlc/Examples.v =
+    [create] for ordinary contracts without the new test): *)
+Theorem escrow_eq_open_refuted_on_pinned_code :
+  exists (s : state) (m : create_msg) (s1 : state) (who secret : Z),
+    Inv s /\ m_transfer m = false /\ m_sender m <> ESC /\ m_sender m <> BLK
+    /\ create_pinned s m = Some s1
+    /\ step_ok s1 (Claim who (id_of m) secret) = true
+    /\ bal (st_bank (step s1 (Claim who (id_of m) secret))) ESC 4
+        <> wsum (w_esc 4) (st_contracts (step s1 (Claim who (id_of m) secret))).
+Proof.
+  exists (init exP exB (ts0 * ns)), (mkCreate 0 ESC [(4, 100)] (7, ts0) ts0 50 false).
+  eexists. exists 1, 7.
+  split; [exact (proj1 (init_inv exP exB (ts0 * ns) ltac:(repeat constructor; simpl; lia) ltac:(intros d; reflexivity)))|].
+  split; [reflexivity|]. split; [discriminate|]. split; [discriminate|].
+  split; [vm_compute; reflexivity|]. split; [vm_compute; reflexivity|]. vm_compute. discriminate.
+Qed.
+Print Assumptions escrow_eq_open_refuted_on_pinned_code.
+
+(** and the fixed code (= the model) rejects the message *)
+Example recipient_escrow_rejected :
+  step_ok (init exP exB (ts0 * ns)) (Create (mkCreate 0 ESC [(4, 100)] (7, ts0) ts0 50 false)) = false.
+Proof. vm_compute. reflexivity. Qed.
 
 (** ** What the check evaluates lies inside these theorems: for every case accepted by the decidable
     guard [hyps_b] (evaluated by [vm_compute] on every case; a case outside it fails the check), the
